@@ -277,7 +277,7 @@ impl<T, A: Ord + Clone> List<T, A> {
             .find_map( /*@>*/ /*@<*/ | /*@>*/ /*@<pat*/ (ix, (ident, _)) /*@>*/ /*@<*/ | /*@>*/ /*@ |p: (usize, (&Identifier<OrdDot<A>>, &T))| -> (o: Option<usize>)
                 requires list_ok::<A>(),
                 ensures o == pe_out(p, *id)
-            { let $pat = p; @*/ if ident == id { Some(ix) } else { None } /*@ } @*/ /*@<*/ ) /*@>*/ /*@ ; let r0 = shim_iter_enumerate_find_map(it0, f0); proof { vstd::std_specs::btree::axiom_spec_btree_map_len(&self.seq); let s = choose|s: Seq<Id<A>>| #[trigger] is_order(s, self.sq()) && entries_in_order(es, s, self.sq()); lemma_order_len(s, self.sq()); let outs = choose|outs: Seq<Option<usize>>| #[trigger] find_map_run(outs, es.len() as int, r0) && (forall|i: int| 0 <= i < outs.len() ==> call_ensures(f0, ((i as usize, es[i]),), #[trigger] outs[i])); let n = outs.len() as int; lemma_position_entry(es, s, self.sq(), *id, r0, outs, n); } r0 @*/
+            { let $pat = p; proof { crate::identifier::c14_antisymmetric((*p.1.0)@, id@); } @*/ if ident == id { Some(ix) } else { None } /*@ } @*/ /*@<*/ ) /*@>*/ /*@ ; let r0 = shim_iter_enumerate_find_map(it0, f0); proof { vstd::std_specs::btree::axiom_spec_btree_map_len(&self.seq); let s = choose|s: Seq<Id<A>>| #[trigger] is_order(s, self.sq()) && entries_in_order(es, s, self.sq()); lemma_order_len(s, self.sq()); let outs = choose|outs: Seq<Option<usize>>| #[trigger] find_map_run(outs, es.len() as int, r0) && (forall|i: int| 0 <= i < outs.len() ==> call_ensures(f0, ((i as usize, es[i]),), #[trigger] outs[i])); let n = outs.len() as int; lemma_position_entry(es, s, self.sq(), *id, r0, outs, n); } r0 @*/
     }
 //@end
 
